@@ -20,6 +20,7 @@ static int g_objLive[4]; static int g_objDtor[4];
 struct Obj : public RefCount::Object
 {
   int id;
+  RefCount::Ptr<Obj> next;       // objects may refer to each other (list idiom: p = p->next)
   Obj(int id) : id(id) { g_objLive[id] = 1; }
   ~Obj() { vf_assert(g_objLive[id] == 1, "pointee destroyed twice"); g_objLive[id] = 0; ++g_objDtor[id]; }
 };
@@ -29,10 +30,10 @@ extern "C" int ptr_seq()
   {
     RefCount::Ptr<Obj> h[3]; int model[3] = {-1, -1, -1};     // which object each handle refers to
     Obj* objs[2] = {new Obj(0), new Obj(1)};
-    bool adopted[2] = {false, false};
+    bool adopted[2] = {false, false}; bool linked = false;     // linked: objs[0]->next refers to objs[1]
     for(unsigned k = 0; k < VF_K; ++k)
     {
-      unsigned op = vf_pick(6);
+      unsigned op = vf_pick(8);
       if(op == 0) break;
       unsigned t = vf_pick(3);
       switch(op)
@@ -42,11 +43,15 @@ extern "C" int ptr_seq()
       case 3: { unsigned u = vf_pick(3); if(u == t) break; h[t].swap(h[u]); int m = model[t]; model[t] = model[u]; model[u] = m; break; }
       case 4: { h[t] = (Obj*)0; model[t] = -1; break; }                                                                          // release
       case 5: { RefCount::Ptr<Obj> c(h[t]); vf_assert((c ? c->id : -1) == model[t], "copy refers to the same object"); break; }
+      case 6: { if(g_objDtor[0] || g_objDtor[1] || linked || !adopted[0]) break; objs[0]->next = objs[1]; adopted[1] = true; linked = true; break; }   // 0 -> 1
+      case 7: { if(model[t] != 0 || !linked) break; h[t] = h[t]->next; model[t] = 1; break; }      // p = p->next: the argument lives inside the object the handle may be the last owner of
       }
+      if(linked && g_objDtor[0]) linked = false;
       // after every operation: an object is alive iff some handle refers to it (or it was never adopted), and handles see their object
       for(unsigned o = 0; o < 2; ++o)
       {
         bool referenced = false; for(unsigned i = 0; i < 3; ++i) referenced |= model[i] == (int)o;
+        if(o == 1 && linked) referenced = true;      // kept alive by objs[0]->next
         if(adopted[o]) vf_assert((g_objLive[o] == 1) == referenced, "object lives exactly as long as a handle refers to it");
       }
       for(unsigned i = 0; i < 3; ++i)
